@@ -269,6 +269,7 @@ class FC:
     pc = []
     pending = []
     current_pre = None
+    prune = False
     memo = {}
     keep = []
     active = False
@@ -279,10 +280,20 @@ _orig_bool = z3.ExprRef.__bool__
 
 
 def _fork_bool(self):
-    try:
-        return _orig_bool(self)
-    except z3.Z3Exception:
-        pass
+    import sys
+    if "/z3/" in sys._getframe(1).f_code.co_filename:
+        return _orig_bool(self)              # z3's own code relies on the structural meaning of ==
+    # everywhere else (the repo's glue, the models) `a == b` on terms means EQUAL VALUES, not identical syntax:
+    # z3's default would silently answer False for two different terms and hide a whole branch
+    if z3.is_true(self):
+        return True
+    if z3.is_false(self):
+        return False
+    if not z3.is_bool(self):
+        if z3.is_int(self) or z3.is_real(self):
+            self = self != 0                 # truth value of a number
+        else:
+            raise Unsupported("truth value of a non-boolean term")
     s = z3.simplify(self)
     if z3.is_true(s):
         return True
@@ -297,6 +308,17 @@ def _fork_bool(self):
         return not FC.memo[s.arg(0).get_id()]
     if FC.pos < len(FC.decisions):
         d = FC.decisions[FC.pos]
+    elif FC.prune:
+        # decide feasibility of both outcomes under the preconditions and the path so far: no fork into an impossible branch
+        can_t = _path_feasible(list(FC.pc) + [s])
+        can_f = _path_feasible(list(FC.pc) + [z3.Not(s)])
+        if can_t and can_f:
+            d = True
+            FC.decisions.append(True)
+            FC.pending.append(FC.decisions[:-1] + [False])
+        else:
+            d = can_t or not can_f
+            FC.decisions.append(d)
     else:
         d = True
         FC.decisions.append(True)
@@ -311,9 +333,11 @@ def _fork_bool(self):
 z3.ExprRef.__bool__ = _fork_bool
 
 
-def run_paths(fn, feasible=None):
+def run_paths(fn, feasible=None, prune=False):
     """run fn once per decision vector; returns [(path condition list, result, runtime)].
-    feasible(pc) -> bool can prune infeasible prefixes (called on completed paths only)."""
+    prune=True asks the solver at every new branch point whether both outcomes are possible (costs two small queries per
+    branch point, saves the exponentially many contradictory paths of code that re-tests related conditions)."""
+    FC.prune = bool(prune)
     work = [[]]
     out = []
     n = 0
